@@ -85,10 +85,14 @@ def finish(prop, tier, seed, units, results, wall, verbose=False, partial=False)
         if key in reported and not verbose:
             continue
         reported.add(key)
-        rp = RP.replay_record(rec.get('function'), rec.get('counterexample'))
+        rp = RP.replay_record(rec.get('function'), rec.get('counterexample'), rec.get('replay_info'), rec.get('clause'))
+        if rec.get('candidate') and rp['status'] != 'confirmed':
+            # a candidate model (quantifier-free part only) that does not replay is not a refutation: undecided
+            undecided.append(rec)
+            continue
         path = os.path.join('replays', prop, safe_name(rec['name']) + '.json')
         json.dump({'property': prop, 'obligation': rec['name'], 'function': rec.get('function'), 'mode': rec['mode'],
-                   'clause': rec['clause'], 'counterexample': rec.get('counterexample'), 'replay': rp,
+                   'clause': rec['clause'], 'counterexample': rec.get('counterexample'), 'replay': rp, 'replay_info': rec.get('replay_info'),
                    'solver': {'backend': rec['backend'], 'time_s': rec['time_s']}},
                   open(os.path.join(HERE, path), 'w'), indent=1, default=str)
         suffix = '' if rp['status'] == 'confirmed' else ' no-failing-input-found'
